@@ -146,14 +146,21 @@ package generator
 //@   ensures@C13 builder.GenInv(g) && builder.GenCtx(g, ctx)
 //@   ensures result1 ==> result0 != nil
 
+// C13 (progress of the dirty fix-point): a method is only marked dirty for a type seen before if a sub
+// method is then created for it
 //@ func generator.shouldCreateSubMethod
-//@   props C06
+//@   props C06 C13
+//@   ensures@C13 old(ctx.HasSeen(source)) ==> result
+//@   ensures@C13 !old(ctx.HasSeen(source)) ==> g.lookup.ByID(ctx.IndexID).Dirty == old(g.lookup.ByID(ctx.IndexID).Dirty)
 //@   requires@C13 builder.GenInv(g) && builder.GenCtx(g, ctx) && builder.MethodOK(ctx) && source != nil && target != nil
 //@   ensures@C13 builder.GenInv(g) && builder.GenCtx(g, ctx)
 
+// C12/C04: generated sub methods get the CONVERTER's settings, not those of the calling method
 //@ func generator.createSubMethod
-//@   props C06 C03
+//@   props C06 C03 C12 C04 C01
 //@   propagates
+//@   at@C12 call g.lookup.Register#1 assert same(genMethod.Method.Common, g.conf.Common) && genMethod.Definition.Name == name && genMethod.Definition.Generated
+//@   at@C04 call g.lookup.Register#1 assert genMethod.Method.Common.SkipCopySameType == g.conf.Common.SkipCopySameType
 //@   requires@C13 GenCall(g, ctx, sourceID, source, target)
 //@   requires !has(g.lookup.Exact, xtype.SignatureOf(source, target))
 //@   ensures@C13 builder.GenInv(g) && builder.GenCtx(g, ctx)
